@@ -218,8 +218,9 @@ func c04Check(c C04Case) (r evid.Result) {
 			return r
 		}
 		if rep.ScheduleBroken {
-			r.Violation = evid.Viol("C04/not-all-opened", "%s: fewer than %d concurrent ContainerLogs calls arrived (%d calls)", what, n, len(rep.Calls))
-			return r
+			// The opens are not all issued concurrently (no property demands that): the
+			// completion order is not owned, the outcome is still checked.
+			r.Class(true, "completion-order-not-owned")
 		}
 		// (a) conservation and (b) per-container order.
 		if len(out) != total {
